@@ -1,7 +1,10 @@
 use std::alloc::Layout;
 use std::mem::MaybeUninit;
 use std::panic::{AssertUnwindSafe, catch_unwind, resume_unwind};
+#[cfg(not(folo_verif_loom))]
 use std::sync::{Arc, MutexGuard};
+#[cfg(folo_verif_loom)]
+use loom::sync::{Arc, MutexGuard};
 
 use crate::{
     BlindPoolCore, BlindPoolInnerMap, BlindPooledMut, LayoutKey, NEVER_POISONED, RawOpaquePool,
